@@ -120,6 +120,30 @@ func generate(w *mon.W) {
 				do(join(t))
 			}
 		}
+		// characters glued to a token without a space: look-alikes of letters,
+		// digits, quotes and separators (what they become when cut down to one
+		// byte), raw line breaks and quote characters at the start and the end of
+		// every token and, for strings and quoted names, at every byte inside
+		if ci < nprog || !w.Quick() || ci%4 == 0 {
+			for i, part := range parts {
+				for _, g := range glue {
+					t := append([]string{}, parts...)
+					t[i] = part + g
+					do(join(t))
+					t[i] = g + part
+					do(join(t))
+				}
+				if c := part[0]; (c == '\'' || c == '"' || c == '`') && len(part) <= 24 {
+					for at := 1; at < len(part); at++ {
+						for _, g := range []string{"\n", "\r", "\\\n", string(c), "\\", glue[0], glue[3]} {
+							t := append([]string{}, parts...)
+							t[i] = part[:at] + g + part[at:]
+							do(join(t))
+						}
+					}
+				}
+			}
+		}
 		// cut at every byte (numbers, strings and operators end mid-token)
 		for i := 1; i < len(src); i++ {
 			do(src[:i])
@@ -152,6 +176,15 @@ func generate(w *mon.W) {
 		do(s)
 	}
 }
+
+// glue: see generate.
+var glue = func() []string {
+	var out []string
+	for _, b := range []byte("nx0_$'`\\;.") {
+		out = append(out, string(rune(0x100+int(b))), string(rune(0x4E00+int(b))), string(rune(0x1F300+int(b))))
+	}
+	return append(out, "\n", "\x85", "\xa0", "\u00a0", "\u2028", "\ufeff", "\x00", "#", "@", "?", "\\")
+}()
 
 type stok struct {
 	K parser.TokenKind
